@@ -32,16 +32,21 @@ package atree
 //@ # an encoder is well formed when its CBOR stream writes to its own writer
 //@ pred encWF(enc *Encoder) = enc != nil && enc.Writer != nil && enc.CBOR != nil && sinkOf(enc.CBOR) == enc.Writer
 
+//@ # wb : the bytes written to each writer so far (ghost content, next to the counter wc); used by the byte-level codec contracts (C07)
+//@ ghost wb : map[ref][]byte
 //@ iface Writer.Write(p) (n, err)
 //@   ghostdef err == nil ==> wc == upd(old(wc), recv, old(wc)[recv] + len(p))
 //@   ghostdef err != nil ==> (forall w ref :: w != recv ==> wc[w] == old(wc)[w])
+//@   ghostdef err == nil ==> len(wb[recv]) == len(old(wb)[recv]) + len(p) &&
+//@        (forall k :: 0 <= k && k < len(old(wb)[recv]) ==> wb[recv][k] == old(wb)[recv][k]) &&
+//@        (forall j :: len(old(wb)[recv]) <= j && j < len(wb[recv]) ==> wb[recv][j] == p[j - len(old(wb)[recv])])
 //@   ensures err == nil ==> n == len(p)
-//@   modifies ghost.wc, alloc
+//@   modifies ghost.wc, ghost.wb, alloc
 
 //@ extern cbor.StreamEncoder.EncodeRawBytes(b) (err)
 //@   ghostdef err == nil ==> wc == upd(old(wc), sinkOf(recv), old(wc)[sinkOf(recv)] + len(b))
 //@   ghostdef err != nil ==> (forall w ref :: w != sinkOf(recv) ==> wc[w] == old(wc)[w])
-//@   modifies ghost.wc, alloc
+//@   modifies ghost.wc, ghost.wb, alloc
 
 //@ extern cbor.StreamEncoder.Flush() (err)
 //@   modifies alloc
@@ -71,25 +76,27 @@ package atree
 
 //@ # a storable writes exactly the number of bytes it reports (assumed for caller-supplied storables; this is what "size" means)
 //@ iface Storable.Encode(enc) (err)
+//@   conform all
+//@   serves C06
 //@   ghostdef err == nil ==> wc == upd(old(wc), enc.Writer, old(wc)[enc.Writer] + bs(recv))
 //@   ghostdef err != nil ==> (forall w ref :: w != enc.Writer ==> wc[w] == old(wc)[w])
-//@   modifies ghost.wc, Encoder._inlinedExtraData, InlinedExtraData.*, alloc
+//@   modifies ghost.wc, ghost.wb, Encoder._inlinedExtraData, InlinedExtraData.*, alloc
 
 //@ # extra-data sections: whatever they write is counted as extra-data bytes
 //@ func (a *ArrayExtraData) Encode(enc, encodeTypeInfo) (err)  serves C06
 //@   trusted "definition of the counter xbytes: every byte written by an extra-data encoder is an extra-data byte"
 //@   ghostdef wc[enc.Writer] - old(wc)[enc.Writer] == xbytes - old(xbytes) && (forall w ref :: w != enc.Writer ==> wc[w] == old(wc)[w])
-//@   modifies ghost.wc, ghost.xbytes, alloc
+//@   modifies ghost.wc, ghost.wb, ghost.xbytes, alloc
 
 //@ func (m *MapExtraData) Encode(enc, encodeTypeInfo) (err)  serves C06
 //@   trusted "definition of the counter xbytes: every byte written by an extra-data encoder is an extra-data byte"
 //@   ghostdef wc[enc.Writer] - old(wc)[enc.Writer] == xbytes - old(xbytes) && (forall w ref :: w != enc.Writer ==> wc[w] == old(wc)[w])
-//@   modifies ghost.wc, ghost.xbytes, alloc
+//@   modifies ghost.wc, ghost.wb, ghost.xbytes, alloc
 
 //@ func (ied *InlinedExtraData) Encode(enc) (err)  serves C06
 //@   trusted "definition of the counter xbytes: every byte written by an extra-data encoder is an extra-data byte"
 //@   ghostdef wc[enc.Writer] - old(wc)[enc.Writer] == xbytes - old(xbytes) && (forall w ref :: w != enc.Writer ==> wc[w] == old(wc)[w])
-//@   modifies ghost.wc, ghost.xbytes, alloc
+//@   modifies ghost.wc, ghost.wb, ghost.xbytes, alloc
 
 //@ pred written(enc *Encoder) = wc[enc.Writer] - old(wc)[enc.Writer] - (xbytes - old(xbytes))
 
@@ -98,15 +105,48 @@ package atree
 //@   requires enc != nil && enc.Writer != nil && a.header.size == 12 + 14 * len(a.childrenHeaders)
 //@   assume a.header.size <= 65535 && (forall k :: 0 <= k && k < len(a.childrenHeaders) ==> a.childrenHeaders[k].size <= 65535) because "slab sizes are bounded by the slab size limit (C05), which fits 16 bits"
 //@   ensures[C06] err == nil ==> written(enc) == a.header.size
-//@   modifies Encoder.Scratch, ghost.wc, ghost.xbytes, alloc
+//@   modifies Encoder.Scratch, ghost.wc, ghost.wb, ghost.xbytes, alloc
 //@   loop 1: invariant written(enc) == 12 + 14 * i && 0 <= i && i <= len(a.childrenHeaders)
+
+//@ # byte content of a non-root array index slab: head(2) address(8) count(2), then per child index(8) count(4) size(2), all big-endian
+//@ pred amdsBytes(a *ArrayMetaDataSlab, b []byte, o int) = len(b) == o + 12 + 14 * len(a.childrenHeaders) &&
+//@      be64(b, o + 2) == a.header.slabID.address && be16(b, o + 10) == len(a.childrenHeaders) &&
+//@      (forall k :: 0 <= k && k < len(a.childrenHeaders) ==> be64(b, o + 12 + 14 * k) == a.childrenHeaders[k].slabID.index &&
+//@          be32(b, o + 12 + 14 * k + 8) == a.childrenHeaders[k].count && be16(b, o + 12 + 14 * k + 12) == a.childrenHeaders[k].size)
+//@ func (a *ArrayMetaDataSlab) Encode@content(enc) (err)  serves C07
+//@   requires enc != nil && enc.Writer != nil && a.extraData == nil && len(a.childrenHeaders) <= 65535
+//@   requires forall k :: 0 <= k && k < len(a.childrenHeaders) ==> a.childrenHeaders[k].size <= 65535
+//@   ensures[C07] err == nil ==> amdsBytes(a, wb[enc.Writer], len(old(wb)[enc.Writer])) &&
+//@        (forall k :: 0 <= k && k < len(old(wb)[enc.Writer]) ==> wb[enc.Writer][k] == old(wb)[enc.Writer][k])
+//@   modifies Encoder.Scratch, ghost.wc, ghost.wb, ghost.xbytes, alloc
+//@   loop 1: invariant 0 <= i && i <= len(a.childrenHeaders) && len(wb[enc.Writer]) == len(old(wb)[enc.Writer]) + 12 + 14 * i
+//@   loop 1: invariant (forall k :: 0 <= k && k < len(old(wb)[enc.Writer]) ==> wb[enc.Writer][k] == old(wb)[enc.Writer][k])
+//@   loop 1: invariant be64(wb[enc.Writer], len(old(wb)[enc.Writer]) + 2) == a.header.slabID.address
+//@   loop 1: invariant be16(wb[enc.Writer], len(old(wb)[enc.Writer]) + 10) == len(a.childrenHeaders)
+//@   loop 1: invariant (forall k :: 0 <= k && k < i ==> be64(wb[enc.Writer], len(old(wb)[enc.Writer]) + 12 + 14 * k) == a.childrenHeaders[k].slabID.index &&
+//@          be32(wb[enc.Writer], len(old(wb)[enc.Writer]) + 12 + 14 * k + 8) == a.childrenHeaders[k].count &&
+//@          be16(wb[enc.Writer], len(old(wb)[enc.Writer]) + 12 + 14 * k + 12) == a.childrenHeaders[k].size)
+
+//@ func (m *MapMetaDataSlab) Encode@content(enc) (err)  serves C07
+//@   requires enc != nil && enc.Writer != nil && m.extraData == nil && len(m.childrenHeaders) <= 65535
+//@   requires forall k :: 0 <= k && k < len(m.childrenHeaders) ==> m.childrenHeaders[k].size <= 65535
+//@   ensures[C07] err == nil ==> mmdsBytes(m, wb[enc.Writer], len(old(wb)[enc.Writer])) &&
+//@        (forall k :: 0 <= k && k < len(old(wb)[enc.Writer]) ==> wb[enc.Writer][k] == old(wb)[enc.Writer][k])
+//@   modifies Encoder.Scratch, ghost.wc, ghost.wb, ghost.xbytes, alloc
+//@   loop 1: invariant 0 <= i && i <= len(m.childrenHeaders) && len(wb[enc.Writer]) == len(old(wb)[enc.Writer]) + 12 + 18 * i
+//@   loop 1: invariant (forall k :: 0 <= k && k < len(old(wb)[enc.Writer]) ==> wb[enc.Writer][k] == old(wb)[enc.Writer][k])
+//@   loop 1: invariant be64(wb[enc.Writer], len(old(wb)[enc.Writer]) + 2) == m.header.slabID.address
+//@   loop 1: invariant be16(wb[enc.Writer], len(old(wb)[enc.Writer]) + 10) == len(m.childrenHeaders)
+//@   loop 1: invariant (forall k :: 0 <= k && k < i ==> be64(wb[enc.Writer], len(old(wb)[enc.Writer]) + 12 + 18 * k) == m.childrenHeaders[k].slabID.index &&
+//@          be64(wb[enc.Writer], len(old(wb)[enc.Writer]) + 12 + 18 * k + 8) == m.childrenHeaders[k].firstKey &&
+//@          be16(wb[enc.Writer], len(old(wb)[enc.Writer]) + 12 + 18 * k + 16) == m.childrenHeaders[k].size)
 
 //@ # map index slab: 2 + 8 + 2 + 18 per child
 //@ func (m *MapMetaDataSlab) Encode@bytes(enc) (err)  serves C06
 //@   requires enc != nil && enc.Writer != nil && m.header.size == 12 + 18 * len(m.childrenHeaders)
 //@   assume m.header.size <= 65535 && (forall k :: 0 <= k && k < len(m.childrenHeaders) ==> m.childrenHeaders[k].size <= 65535) because "slab sizes are bounded by the slab size limit (C05), which fits 16 bits"
 //@   ensures[C06] err == nil ==> written(enc) == m.header.size
-//@   modifies Encoder.Scratch, ghost.wc, ghost.xbytes, alloc
+//@   modifies Encoder.Scratch, ghost.wc, ghost.wb, ghost.xbytes, alloc
 //@   loop 1: invariant written(enc) == 12 + 18 * i && 0 <= i && i <= len(m.childrenHeaders)
 
 //@ # ---- array leaf
@@ -115,7 +155,7 @@ package atree
 //@   requires encWF(enc) && len(a.elements) <= 65535 && (forall k :: 0 <= k && k < len(a.elements) ==> a.elements[k] != nil)
 //@   ensures[C06] err == nil ==> wc[enc.Writer] == old(wc)[enc.Writer] + 3 + sum(bs, a.elements, len(a.elements))
 //@   ensures (forall w ref :: w != enc.Writer ==> wc[w] == old(wc)[w])
-//@   modifies Encoder.Scratch, Encoder._inlinedExtraData, InlinedExtraData.*, ghost.wc, alloc
+//@   modifies Encoder.Scratch, Encoder._inlinedExtraData, InlinedExtraData.*, ghost.wc, ghost.wb, alloc
 //@   loop 1: invariant 0 <= i && i <= len(a.elements) && wc[enc.Writer] == old(wc)[enc.Writer] + 3 + sum(bs, a.elements, i) && (forall w ref :: w != enc.Writer ==> wc[w] == old(wc)[w])
 
 //@ # standalone leaf: 2 (head) + [16 sibling link] + 3 + elements; the reported size counts the sibling link always (an empty link is
@@ -124,66 +164,70 @@ package atree
 //@   requires encWF(enc) && enc.encMode != nil && !a.inlined && wfADS(a) && len(a.elements) <= 65535
 //@   assume a.extraData != nil ==> a.next == SlabIDUndefined because "tree invariant: a root leaf has no sibling (C01)"
 //@   ensures[C06] err == nil ==> written(enc) == a.header.size - ite(a.extraData == nil && a.next == SlabIDUndefined, 16, 0)
-//@   modifies heap, ghost.wc, ghost.xbytes, alloc
+//@   modifies heap, ghost.wc, ghost.wb, ghost.xbytes, alloc
 
 //@ extern bytes.Buffer.Reset()
 //@   ghostdef wc == upd(old(wc), iface(recv), 0)
-//@   modifies ghost.wc
+//@   modifies ghost.wc, ghost.wb
 
 //@ # ---- map side
 //@ # EncodeBytes writes a byte-string head (1 byte for lengths below 24) and the bytes
 //@ extern cbor.StreamEncoder.EncodeBytes(b) (err)
 //@   ghostdef err == nil && len(b) < 24 ==> wc == upd(old(wc), sinkOf(recv), old(wc)[sinkOf(recv)] + 1 + len(b))
 //@   ghostdef err != nil ==> (forall w ref :: w != sinkOf(recv) ==> wc[w] == old(wc)[w])
-//@   modifies ghost.wc, alloc
+//@   modifies ghost.wc, ghost.wb, alloc
 
 //@ # a reference: 2 (tag) + 1 (byte-string head) + 16 (slab id) = 19 bytes, which is what it reports
 //@ func (v SlabIDStorable) Encode(enc) (err)  serves C06
 //@   requires encWF(enc)
 //@   ensures[C06] err == nil ==> wc == upd(old(wc), enc.Writer, old(wc)[enc.Writer] + 19)
 //@   ensures err != nil ==> (forall w ref :: w != enc.Writer ==> wc[w] == old(wc)[w])
-//@   modifies Encoder.Scratch, ghost.wc, alloc
+//@   modifies Encoder.Scratch, ghost.wc, ghost.wb, alloc
 //@ func (v SlabIDStorable) ByteSize() (n)  serves C06
 //@   ensures n == 19
 //@   pure
 
 //@ iface element.Encode(enc) (err)
+//@   conform all
+//@   serves C06
 //@   ghostdef err == nil ==> wc == upd(old(wc), enc.Writer, old(wc)[enc.Writer] + old(esz(recv)))
 //@   ghostdef err != nil ==> (forall w ref :: w != enc.Writer ==> wc[w] == old(wc)[w])
-//@   modifies Encoder.Scratch, Encoder._inlinedExtraData, InlinedExtraData.*, ghost.wc, alloc
+//@   modifies Encoder.Scratch, Encoder._inlinedExtraData, InlinedExtraData.*, ghost.wc, ghost.wb, alloc
 
 //@ iface elements.Encode(enc) (err)
+//@   conform all
+//@   serves C06
 //@   ghostdef err == nil ==> wc == upd(old(wc), enc.Writer, old(wc)[enc.Writer] + old(elsSize(recv)))
 //@   ghostdef err != nil ==> (forall w ref :: w != enc.Writer ==> wc[w] == old(wc)[w])
-//@   modifies Encoder.Scratch, Encoder._inlinedExtraData, InlinedExtraData.*, ghost.wc, alloc
+//@   modifies Encoder.Scratch, Encoder._inlinedExtraData, InlinedExtraData.*, ghost.wc, ghost.wb, alloc
 
 //@ # plain element: 1 (array head) + key + value = the size it reports
 //@ func (e *singleElement) Encode(enc) (err)  serves C06
 //@   requires encWF(enc) && e.key != nil && e.value != nil
 //@   ensures[C06] err == nil ==> wc == upd(old(wc), enc.Writer, old(wc)[enc.Writer] + 1 + bs(e.key) + bs(e.value))
 //@   ensures err != nil ==> (forall w ref :: w != enc.Writer ==> wc[w] == old(wc)[w])
-//@   modifies Encoder._inlinedExtraData, InlinedExtraData.*, ghost.wc, alloc
+//@   modifies Encoder._inlinedExtraData, InlinedExtraData.*, ghost.wc, ghost.wb, alloc
 
 //@ # inline group: 2 (tag) + nested list
 //@ func (e *inlineCollisionGroup) Encode(enc) (err)  serves C06
 //@   requires encWF(enc) && e.elements != nil
 //@   ensures[C06] err == nil ==> wc == upd(old(wc), enc.Writer, old(wc)[enc.Writer] + 2 + old(elsSize(e.elements)))
 //@   ensures err != nil ==> (forall w ref :: w != enc.Writer ==> wc[w] == old(wc)[w])
-//@   modifies Encoder.Scratch, Encoder._inlinedExtraData, InlinedExtraData.*, ghost.wc, alloc
+//@   modifies Encoder.Scratch, Encoder._inlinedExtraData, InlinedExtraData.*, ghost.wc, ghost.wb, alloc
 
 //@ # external group: 2 (tag) + reference
 //@ func (e *externalCollisionGroup) Encode(enc) (err)  serves C06
 //@   requires encWF(enc)
 //@   ensures[C06] err == nil ==> wc == upd(old(wc), enc.Writer, old(wc)[enc.Writer] + 2 + 19)
 //@   ensures err != nil ==> (forall w ref :: w != enc.Writer ==> wc[w] == old(wc)[w])
-//@   modifies Encoder.Scratch, ghost.wc, alloc
+//@   modifies Encoder.Scratch, ghost.wc, ghost.wb, alloc
 
 //@ # digest-sorted list: 5 (head, level, byte-string head) + 8 per digest + 3 (array head) + elements = 8 + 8n + sum = reported size
 //@ func (e *hkeyElements) Encode(enc) (err)  serves C06
 //@   requires encWF(enc) && hkShape(e) && hkPos(e) && len(e.hkeys) <= 8000
 //@   ensures[C06] err == nil ==> wc == upd(old(wc), enc.Writer, old(wc)[enc.Writer] + 8 + 8 * len(e.hkeys) + sum(esz, e.elems, len(e.elems)))
 //@   ensures err != nil ==> (forall w ref :: w != enc.Writer ==> wc[w] == old(wc)[w])
-//@   modifies Encoder.Scratch, Encoder._inlinedExtraData, InlinedExtraData.*, ghost.wc, alloc
+//@   modifies Encoder.Scratch, Encoder._inlinedExtraData, InlinedExtraData.*, ghost.wc, ghost.wb, alloc
 //@   loop 1: invariant 0 <= i && i <= len(e.hkeys) && wc == upd(old(wc), enc.Writer, old(wc)[enc.Writer] + 5 + 8 * i)
 //@   loop 2: invariant 0 <= i && i <= len(e.elems) && wc[enc.Writer] == old(wc)[enc.Writer] + 8 + 8 * len(e.hkeys) + sum(esz, e.elems, i)
 //@   loop 2: invariant (forall w ref :: w != enc.Writer ==> wc[w] == old(wc)[w])
@@ -195,14 +239,14 @@ package atree
 //@        e.elems[k].size == 1 + bs(e.elems[k].key) + bs(e.elems[k].value))
 //@   ensures[C06] err == nil ==> wc == upd(old(wc), enc.Writer, old(wc)[enc.Writer] + 6 + sum(ssz, e.elems, len(e.elems)))
 //@   ensures err != nil ==> (forall w ref :: w != enc.Writer ==> wc[w] == old(wc)[w])
-//@   modifies Encoder.Scratch, Encoder._inlinedExtraData, InlinedExtraData.*, ghost.wc, alloc
+//@   modifies Encoder.Scratch, Encoder._inlinedExtraData, InlinedExtraData.*, ghost.wc, ghost.wb, alloc
 //@   loop 1: invariant 0 <= i && i <= len(e.elems) && wc == upd(old(wc), enc.Writer, old(wc)[enc.Writer] + 6 + sum(ssz, e.elems, i))
 
 //@ func (m *MapDataSlab) encodeElements(enc) (err)  serves C06
 //@   requires encWF(enc) && m.elements != nil
 //@   ensures[C06] err == nil ==> wc == upd(old(wc), enc.Writer, old(wc)[enc.Writer] + old(elsSize(m.elements)))
 //@   ensures err != nil ==> (forall w ref :: w != enc.Writer ==> wc[w] == old(wc)[w])
-//@   modifies Encoder.Scratch, Encoder._inlinedExtraData, InlinedExtraData.*, ghost.wc, alloc
+//@   modifies Encoder.Scratch, Encoder._inlinedExtraData, InlinedExtraData.*, ghost.wc, ghost.wb, alloc
 
 //@ # standalone map leaf: 2 (head) + [16 sibling link] + element list; reported size = prefix (2 root / 18 otherwise) + element list
 //@ func (m *MapDataSlab) Encode@bytes(enc) (err)  serves C06
@@ -210,4 +254,35 @@ package atree
 //@   requires m.header.size == ite(m.extraData != nil, 2, 18) + elsSize(m.elements)
 //@   assume m.extraData != nil ==> m.next == SlabIDUndefined because "tree invariant: a root leaf has no sibling (C02)"
 //@   ensures[C06] err == nil ==> written(enc) == m.header.size - ite(m.extraData == nil && m.next == SlabIDUndefined, 16, 0)
-//@   modifies heap, ghost.wc, ghost.xbytes, alloc
+//@   modifies heap, ghost.wc, ghost.wb, ghost.xbytes, alloc
+
+//@ # ---------------------------------------------------------------- extradata.go: the extra-data table of inlined containers (C06 C07)
+//@ # getEncodedTypeInfo: the encoded form is a function of the type info (A4 for caller-supplied TypeInfo.Encode)
+//@ ghost tiEnc : fn(ti TypeInfo) string
+//@ func getEncodedTypeInfo(ti) (s, err)  serves C07
+//@   trusted "stream encoder over a pooled buffer (external); the result is abstracted as tiEnc(ti)"
+//@   ensures err == nil ==> s == tiEnc(ti)
+//@   ensures err != nil ==> categorised(err)
+//@   modifies alloc
+
+//@ # a map's extra data (type, element count, seed) gets its OWN entry: the index handed back refers to exactly the record passed in,
+//@ # so the count and seed a reader finds under that index are those of this map; earlier entries are untouched
+//@ func (ied *InlinedExtraData) addMapExtraData(data) (index, err)  serves C06 C07
+//@   requires ied != nil && data != nil
+//@   ensures err == nil ==> index == len(old(ied.extraData)) && len(ied.extraData) == len(old(ied.extraData)) + 1 &&
+//@        ied.extraData[index].extraData == iface(data) && ied.extraData[index].encodedTypeInfo == tiEnc(data.TypeInfo)
+//@   ensures err == nil ==> (forall k :: 0 <= k && k < len(old(ied.extraData)) ==> ied.extraData[k] == old(ied.extraData)[k])
+//@   ensures err != nil ==> ied.extraData == old(ied.extraData)
+//@   modifies ied.extraData, alloc
+
+//@ # an array's extra data holds only the type, so arrays of one type share an entry: the index handed back refers to an entry with
+//@ # the same encoded type; earlier entries are untouched
+//@ func (ied *InlinedExtraData) addArrayExtraData(data) (index, err)  serves C06 C07
+//@   requires ied != nil && data != nil
+//@   requires forall t string :: has(ied.arrayExtraDataSet, t) ==> 0 <= ied.arrayExtraDataSet[t] && ied.arrayExtraDataSet[t] < len(ied.extraData) &&
+//@        ied.extraData[ied.arrayExtraDataSet[t]].encodedTypeInfo == t
+//@   ensures err == nil ==> 0 <= index && index < len(ied.extraData) && ied.extraData[index].encodedTypeInfo == tiEnc(data.TypeInfo)
+//@   ensures err == nil ==> (forall k :: 0 <= k && k < len(old(ied.extraData)) ==> ied.extraData[k] == old(ied.extraData)[k]) && len(ied.extraData) >= len(old(ied.extraData))
+//@   ensures err == nil ==> (forall t string :: has(ied.arrayExtraDataSet, t) ==> 0 <= ied.arrayExtraDataSet[t] && ied.arrayExtraDataSet[t] < len(ied.extraData) &&
+//@        ied.extraData[ied.arrayExtraDataSet[t]].encodedTypeInfo == t)
+//@   modifies ied.extraData, ied.arrayExtraDataSet, alloc
